@@ -20,12 +20,21 @@ METHODS = ["linear", "lower", "higher"]
 class ThrRun:
     """one symbolic execution of threshold_at_<metric>(r, method) on a symbolic Scores object"""
 
-    def __init__(self, metric, sc, ec, method, sizes=None, strict=False, me=None, ex=None, path=None, r=None, name=""):
+    def __init__(self, metric, sc, ec, method, sizes=None, strict=False, me=None, ex=None, path=None, r=None, name="", easy_case=None):
         self.metric, self.sc, self.ec, self.method = metric, sc, ec, method
         npos, nneg = sizes[:2] if sizes else (None, None)
         easy = tuple(sizes[2:4]) if sizes and len(sizes) >= 4 else True
         self.ex = ex or new_exec(ground=bool(sizes))
         self.path = path if path is not None else Path()
+        if easy_case is not None and not (sizes and len(sizes) >= 4) and me is None:
+            ep_, en_ = Int(name + "nb_easy_pos"), Int(name + "nb_easy_neg")
+            self.path.add(And(ep_ >= 0, en_ >= 0))
+            rel = {"tpr": "p", "fnr": "p", "tnr": "n", "fpr": "n"}.get(metric, "pn")
+            if easy_case == "none":
+                easy = (0 if "p" in rel else ep_, 0 if "n" in rel else en_)
+            else:
+                easy = (ep_, en_)
+                self.path.add((ep_ if "p" in rel else 0) + (en_ if "n" in rel else 0) > 0)
         self.me = me or mk_scores(self.ex, self.path, sc, ec, npos, nneg, easy=easy, strict=strict, name=name)
         self.r = r if r is not None else Real(name + "r")
         me = self.me
